@@ -132,6 +132,15 @@ Theorem stop_bounded_wait_refuted : forall l, exists s,
 Proof. exact bounded_wait_unsafe. Qed.
 Print Assumptions stop_bounded_wait_refuted.
 
+(* a start() that notifies BEFORE it publishes shouldBeRunning loses the wake-up: reachable state with start() returned,
+   the flag set, the loop thread asleep and un-notified, unable to move (schedule ModelRMW.early_notify_schedule) --
+   the negation of started_loop_is_notified / start_progress.  facts_start_order pins write-under-lock-then-notify. *)
+Theorem start_notify_before_publish_refuted : forall l, exists s,
+  nreachable l s /\ start_ret s = true /\ run s = true /\ lp s = LSleep /\ cv s = CvAsleep /\
+  step_loop Repaired s = None.
+Proof. exact early_notify_loses_wakeup. Qed.
+Print Assumptions start_notify_before_publish_refuted.
+
 Theorem old_checker_verdict : check (THREAD, Original) stop_safe_b = false.
 Proof. exact original_checker_says_unsafe. Qed.
 Print Assumptions old_checker_verdict.
